@@ -17,9 +17,13 @@ CHECKS = {
         'circuit read back by the Lean replay lists the original operations in an order respecting every qubit (C06 check, so C06_reordering_preserves_state applies) and ends '
         'in the reported swap map; numerically the routed circuit followed by the inverse permutation equals the mapped original (Lean C01 product). Target gatesets (CZ, '
         'partial CZ, sqrt-iSWAP incl. required count, Sycamore, Google CZ, IonQ QIS / Aria / Forte, AQT, Pasqal): output accepted by the gateset and equal up to global phase '
-        '(Lean C01 product). AQT / IonQ / Pasqal devices: validate_operation accepts only gateset members on device qubits and accepts every such operation (AQT, IonQ).',
+        '(Lean C01 product). AQT / IonQ / Pasqal devices: validate_operation accepts only gateset members on device qubits and accepts every such operation (AQT, IonQ). '
+        'Props.C07Timesteps (Model/C07Timesteps): the factoring of a circuit into timesteps that RouteCQC routes by keeps, for every circuit, each operation strictly after every earlier two-qubit operation it '
+        'conflicts with (shared qubit, measurement key written / read) and not before any earlier one-qubit operation on a shared qubit or key (C07_timesteps_respect_dependencies, invariant by induction over '
+        'the operations; C07_layout_is_assignment ties the timesteps to the layout returned); the timesteps stream compares both lists of timesteps of the implementation with the model exactly, and routing of '
+        'measured / classically controlled circuits is read back with keys as wires.',
         'Trusted: Lean kernel; harness + drivers; the SWAP matrix (C03) links SWAP events to SWAP operations; gateset membership and device metadata read from the library; '
-        'compilation correctness itself is T2 (numerical, through the Lean product); GridDevice is covered by C16; no-compile tags and sub-circuits not covered yet.',
+        'compilation correctness itself is T2 (numerical, through the Lean product); GridDevice is covered by C16; directed device graphs are not covered.',
         'Lean 4 proof (array-permutation invariant by induction over swap sequences; replay theorem) + differential correspondence',
         'DESIGN.md §3 C07',
     ),
